@@ -17,7 +17,7 @@ from harness.c05 import show_recs, write_v, write_vb
 from harness.common import Check, err_enum, hexs
 from harness.gen_copybook import (Node, Style, TreeGen, clusters_ok, item_tokens, node_size, number_fillers, path_token, preorder, render,
                                   spec_layout)
-from harness.layout_common import build_docs, impl_range, load, pattern_record
+from harness.layout_common import build_docs, impl_range, load, nav_path, pattern_record
 
 CAP = 32768
 
@@ -124,6 +124,20 @@ def one_tree(ck: Check, root: Node, reqs: list[str], impl: list[str], inputs: li
             if r != "none:IndexError":
                 ck.fail("odo-index-bound", f"counts {env}: index path {path_token(p)} at/beyond the count gives {r}, not IndexError",
                         {**inp, "path": path_token(p)})
+        # the value of a whole table is the list of its elements' values, for exactly `count` elements
+        for t in tables_of(root):
+            tp = next((p for p in paths if p and p[-1] == t.unique and not any(isinstance(x, int) for x in p)), None)
+            if tp is None:
+                continue
+            try:
+                whole = nav_path(nav, tp).value()
+                parts = [nav_path(nav, tp + (i,)).value() for i in range(env[t.odo[2]])]  # type: ignore[index]
+            except BaseException:  # noqa: BLE001
+                continue            # pattern bytes under a numeric picture: nothing to compare
+            ck.oracle_evaluations += 1
+            if repr(whole) != repr(parts):
+                ck.fail("odo-layout", f"counts {env}: value() of table {t.unique} is not the list of its {env[t.odo[2]]} elements' values",  # type: ignore[index]
+                        {**inp, "path": path_token(tp)})
         if clusters_ok(root):
             reqs.append(f"LAY nav {env_token(env)} {';'.join(path_token(p) for p in paths + bound_paths)} {toks}")
             impl.append(" ".join(r if not r.startswith("none") else "none" for r in ranges))
